@@ -6,6 +6,8 @@ import Driver.Flow
 import Driver.Hpack
 import Driver.Frame
 import Driver.H2SM
+import Driver.Pass
+import Driver.DBuf
 import FpVerif.Spec.JA3
 import FpVerif.Spec.Capture
 import FpVerif.Spec.H2Fp
@@ -281,6 +283,8 @@ def handle (cmd : String) (args : List String) : String :=
   | "metrics", toks => (metricsSpec toks).getD "bad-op"
   | "e2emulti", toks => (e2eMultiExpected toks).getD "bad-op"
   | "e2e", toks => (e2eExpected toks).getD "bad-op"
+  | "pass", toks => (passExpected toks).getD "bad-op"
+  | "dbuf", toks => (dbufRun toks).getD "bad-op"
   | "rw", toks => (rwModel toks).getD "bad-op"
   | "rwspec05", toks => (rwSpec05 toks).getD "bad-op"
   | "rwspec09", toks => (rwSpec09 toks).getD "bad-op"
